@@ -29,6 +29,55 @@ def wipe_obligations(rep, h, t, u):
                    ",".join(sorted(r_wipe.volatile_memset_ptrs(u))))
 
 
+def lane_rule(rep, u, own_file):
+    """block-load macros: a group of vector loads from one block pointer (one macro expansion) reads lanes 0..N-1, each
+    once, into distinct destinations in order; groups of sibling macros with the same destinations agree"""
+    from rules.core import walk, key, strip_casts, const_val
+    n = 0
+    for fn in u.function_list:
+        if fn.relfile() != own_file or not fn.has_cfg:
+            continue
+        groups = {}
+        for bid in fn.rpo():
+            for e in fn.blocks[bid].elems:
+                if e.get("k") != "bin" or e["op"] != "=":
+                    continue
+                rv = strip_casts(e["y"])
+                if rv.get("k") != "call" or "load" not in (rv.get("fn") or "") or not (rv.get("fn") or "").startswith("_mm"):
+                    continue
+                a = strip_casts(rv["args"][0]) if rv["args"] else None
+                if a is None or a.get("k") != "un" or a.get("op") != "&":
+                    continue
+                sub = strip_casts(a["e"])
+                if sub.get("k") != "sub" or const_val(sub["i"]) is None:
+                    continue
+                ms = [m for m in core.macro_chain(e) if "LOAD" in m]
+                if not ms:
+                    continue
+                g = groups.setdefault((ms[0], key(strip_casts(sub["b"])), e.get("ln")), [])
+                g.append((key(strip_casts(e["x"])), int(const_val(sub["i"])), rv.get("fn")))
+        per = {}
+        bydest = {}
+        for (macro, base, ln), lanes in sorted(groups.items(), key=str):
+            n += 1
+            rep.functions.add(fn.name)
+            per[macro] = per.get(macro, 0) + 1
+            inst = "lanes:%s" % macro + ("" if per[macro] == 1 else "#%d" % per[macro])
+            desc = "%s loads lanes 0..%d of %s, each once, into distinct destinations" % (macro, len(lanes) - 1, base)
+            idx = [l[1] for l in lanes]
+            dst = [l[0] for l in lanes]
+            if idx == list(range(len(lanes))) and len(set(dst)) == len(dst):
+                rep.proved("R-LANE", fn, inst, desc, "%s <- lanes %s" % (dst, idx), ln)
+            else:
+                rep.violated("R-LANE", fn, inst, desc, "destinations %s receive lanes %s" % (dst, idx), ln)
+            bydest.setdefault(tuple(dst), []).append((macro, idx))
+        for dst, lst in bydest.items():
+            if len(lst) > 1 and len({tuple(i) for _, i in lst}) > 1:
+                rep.violated("R-LANE", fn, "lanes-siblings:%s" % "/".join(m for m, _ in lst), "sibling load macros fill the same destinations from the same lanes",
+                             str(lst))
+    return n
+
+
 def run(rep, tier):
     specs = hashes.units(tier)
     us = driver.load_units([s for (_, _, s) in specs])
@@ -39,6 +88,10 @@ def run(rep, tier):
         wipe_obligations(rep, h, hashes.HASHES[h], u)
         n += 1
     rep.floor("final functions checked for zeroisation", n, 8)
+    nl = 0
+    for (h, lab, s) in specs:
+        nl += lane_rule(rep, us[s.label], "include/" + hashes.HASHES[h]["hdr"])
+    rep.floor("block-load macro expansions", nl, 4)
     from props import c04_tables, c04_more
     c04_tables.run(rep, specs, us, tier)
     c04_more.run(rep, specs, us, tier)
